@@ -146,28 +146,33 @@ def _run_harness(ctx, inp_obj, label="replay"):
 
 
 def _apalache(ctx):
-    """Thorough tier: the integer identity behind the quorum test, on unbounded integers
-    (TLC checks it only on the small range of the case set; the trace spec evaluates both
+    """Thorough tier: the integer identities behind the quorum tests, on unbounded integers
+    (TLC checks them only on the small range of the case set; the trace spec evaluates both
     sides with TMBigNat on every observed run).  Not a verdict source: a failure or timeout
     is reported in the evidence."""
     d = ctx.spec_copy()
     if not os.path.exists(os.path.join(d, "C07_apalache.tla")) or not shutil.which("apalache-mc"):
         return {"run": False}
-    t0 = time.time()
-    try:
-        p = subprocess.run(["apalache-mc", "check", "--length=1", "--inv=QuorumIdentityInv", "--init=Init", "--next=Next",
-                            "--out-dir=" + os.path.join(ctx.work, "apalache-out"), "C07_apalache.tla"],
-                           cwd=d, stdout=subprocess.PIPE, stderr=subprocess.STDOUT, timeout=300)
-        out = p.stdout.decode("utf-8", "replace")
-        ok = "The outcome is: NoError" in out
-        if not ok:
-            ctx.save_log("apalache", out)
-        return {"run": True, "proved": ok, "wall_s": round(time.time() - t0, 1),
-                "what": "for all 0 <= tallied <= total <= MaxTotalVotingPower and 0 <= num, 1 <= den < 2^63: "
-                        "tallied > (total*2) div 3 <=> 3*tallied > 2*total, and tallied > (total*num) div den <=> "
-                        "den*tallied > num*total (unbounded integers, SMT)"}
-    except subprocess.TimeoutExpired:
-        return {"run": True, "proved": False, "timeout": True}
+    out = {"run": True, "what": "for all 0 <= tallied <= total <= MaxTotalVotingPower: tallied > (total*2) div 3 <=> "
+                                "3*tallied > 2*total; for all 0 <= P <= MaxInt64, 1 <= den <= MaxInt64: tallied > P div den "
+                                "<=> den*tallied > P (unbounded integers, SMT)"}
+    env = dict(os.environ)
+    env["JVM_ARGS"] = "-Xmx2g"
+    for inv in ("TwoThirdsIdentityInv", "FractionIdentityInv"):
+        t0 = time.time()
+        try:
+            p = subprocess.run(["apalache-mc", "check", "--length=1", "--inv=" + inv,
+                                "--out-dir=" + os.path.join(ctx.work, "apalache-out"), "C07_apalache.tla"],
+                               cwd=d, stdout=subprocess.PIPE, stderr=subprocess.STDOUT, timeout=300, env=env)
+            txt = p.stdout.decode("utf-8", "replace")
+            ok = "EXITCODE: OK" in txt and "no error" in txt
+            if not ok:
+                ctx.save_log("apalache-" + inv, txt)
+            out[inv] = {"proved": ok, "wall_s": round(time.time() - t0, 1)}
+        except subprocess.TimeoutExpired:
+            out[inv] = {"proved": False, "timeout": True}
+        log("apalache %s: %s" % (inv, out[inv]))
+    return out
 
 
 def run(ctx):
@@ -182,8 +187,8 @@ def run(ctx):
     wcfg = {n: core.cfg_variant(ctx, "C07_weak_%s.cfg" % n, "C07_weak_%s_run.cfg" % n, small) for n in WEAK}
     ocfg = {tag: core.cfg_variant(ctx, "C07_ovf.cfg", "C07_ovf_%s.cfg" % tag, small, invariants=invs)
             for tag, invs in (("pass", None), ("cov_overflow", ["CovNoOverflow"]), ("cov_panic", ["CovNoPanicTotal"]))}
-    bg = ThreadPoolExecutor(max_workers=3)
-    f_cases = bg.submit(ctx.tlc, "C07_cases", cfg, timeout=1500, workers=min(ctx.cores, 6), heap="6g", label="cases")
+    bg = ThreadPoolExecutor(max_workers=2)
+    f_cases = bg.submit(ctx.tlc, "C07_cases", cfg, timeout=1500, workers=min(ctx.cores, 4), heap="6g", label="cases")
     # ---- 2. non-vacuity: every weakened spec is refuted; overflow / panic exits are reachable ---
     f_weak = {n: bg.submit(ctx.tlc, "C07_cases", wcfg[n], timeout=600, workers=2, label="weak_" + n) for n in WEAK}
     f_ovf = {t: bg.submit(ctx.tlc, "C07_cases", ocfg[t], timeout=900, workers=2, label="ovf_" + t) for t in ocfg}
@@ -199,7 +204,9 @@ def run(ctx):
     # ---- 3. replay every exported case on the real functions (+ seeded random driver) --------------
     obs = _run_harness(ctx, {"cases_file": cases_file, "scales": T["scales"], "rot_scales": T["rot"],
                              "random": T["random"], "workers": max(2, min(8, ctx.cores // 2))}, label="main")
+    log("t=%.0fs harness done" % (time.time() - ctx.t0))
     st = _scan(obs)
+    log("t=%.0fs observation file scanned: %d lines, %d runs, %d calls" % (time.time() - ctx.t0, st["lines"], st["runs"], st["calls"]))
     if st["src"].get("case", 0) != ncases:
         raise Undecided("harness executed %d of %d cases" % (st["src"].get("case", 0), ncases))
     if st["src"].get("random", 0) != T["random"]:
@@ -207,7 +214,9 @@ def run(ctx):
 
     # ---- 4. trace validation: TLC judges the observed verdicts -----------------------------------
     v = _validate_file(ctx, obs, T["chunk"], "obs")
+    log("t=%.0fs trace validation done" % (time.time() - ctx.t0))
 
+    apal = _apalache(ctx) if ctx.tier == "thorough" else {"run": False}
     # ---- collect the background TLC runs ---------------------------------------------------------
     r1 = f_cases.result()
     if not r1.ok:
@@ -234,8 +243,7 @@ def run(ctx):
         if r.errors or r.timed_out or not r.violations:
             raise Undecided("coverage goal %s not reached in C07_ovf" % tag)
         nonvac["reachable in model: " + tag] = True
-
-    apal = _apalache(ctx) if ctx.tier == "thorough" else {"run": False}
+    log("t=%.0fs background TLC runs collected" % (time.time() - ctx.t0))
 
     # ---- 5. verdict ---------------------------------------------------------------------------------
     verdict = core.Verdict(ctx)
@@ -257,10 +265,12 @@ def run(ctx):
                 "other chain, short/long/rotated commits) is realised with real ed25519 keys and executed on the real "
                 "VerifyCommit, VerifyCommitLight and VerifyCommitLightTrusting (11 trust levels) at power scalings 1, "
                 "floor(MaxTotalVotingPower/total) and one of 7, 3*2^20, 3*2^38, 2^52; plus %d seeded random sets of 1..8 "
-                "members with powers up to MaxTotalVotingPower tuned to sit at / next to a threshold. A run is one "
+                "members with powers up to MaxTotalVotingPower tuned to sit at / next to a threshold, totals exactly at "
+                "MaxTotalVotingPower and hand-built sets just above it (panic exit), commits aligned / permuted / of other "
+                "membership. A run is one "
                 "(commit, arguments, concrete power vector); distinct by hash; non-trivial = a function got past the "
                 "argument checks or accepted" % (
-                    {1: 9, 2: 20}[T["PVTier"]], T["random"]),
+                    {1: 10, 2: 21}[T["PVTier"]], T["random"]),
         "samples": st["samples"],
         "exhaustive": True,
         "tlc_runs": ctx.tlc_stats,
@@ -300,7 +310,7 @@ def replay(ctx, path):
         rep = json.load(f)
     row = rep["replay"]["failing_step"]
     case = {"pv": [], "frame": row["frame"], "kinds": row["kinds"], "chain": row["chain"], "h": row["h"],
-            "bid": row["bid"], "c": row["c"], "src": row.get("src", "case"),
+            "bid": row["bid"], "c": row["c"], "src": row.get("src", "case"), "handbuilt": bool(row.get("handbuilt", False)),
             "powers": [[str(_unlimb(p)) for p in run["pv"]] for run in row["runs"]],
             "labels": [run["scale"] for run in row["runs"]],
             "fracs": [[_unlimb(t["num"]), _unlimb(t["den"])] for t in row["runs"][0]["trust"]]}
